@@ -63,6 +63,47 @@ def run_real_scheduler(ctx, n_ens, workers, steps, seed, rng, image=None, weight
                 return f"unreadable:{type(e).__name__}"
         return cstep0 if image is not None else None
 
+    sd = {"pend": None, "last_k": None, "last_prep": None, "main": False, "on": False}
+
+    def disk_state():
+        """`<cstep>:<number of locked entries>` of the restart file a restart would read now, `-` = none"""
+        fn = os.path.join(sim.tmp, "restart.toml")
+        if os.path.exists(fn):
+            try:
+                cur = T.read_image(sim.tmp)
+                return f"{cur['cstep']}:{len(cur.get('locked', []))}"
+            except Exception as e:  # noqa: BLE001
+                return f"unreadable:{type(e).__name__}"
+        if image is not None:
+            return f"{cstep0}:{len(image.get('locked', []))}"
+        return "-"
+
+    def sd_real(phase):
+        """what the REAL scheduler life looks like now, in the format of the driver's `sd-` answers"""
+        mid = st.cstep - (cstep0 + rec["treated"])
+        return (f"ok phase={phase} cstep={st.cstep} jobs={len(futures)} locked={len(st.locked)} disk={disk_state()} "
+                f"writes={rec['writes']} stops={rec['stop_calls']} mid={mid}")
+
+    def sd_emit(ev, phase="running"):
+        """one whole scheduler-level event for `SchedDisk.dstep` (the composed function of the theorems), with the
+        real state after it"""
+        if sd["on"]:
+            sim.emit("sd-ev " + ev, sd_real(phase), "sd")
+            rec["sd_events"] = rec.get("sd_events", 0) + 1
+
+    def sd_flush(prep=None):
+        """the iteration of the main loop that consumed a result is over (re-submitted or not)"""
+        pd = sd["pend"]
+        if pd is None:
+            return
+        sd["pend"] = None
+        t, e_, coin, partner = (prep[2:6] if prep else ("0", "0", "0", "0"))
+        sd_emit(f"step {pd['k']} {pd['status']} {t} {e_} {coin} {partner} {pd['ws']}")
+
+    def ws_tokens(status, ws, n_picked):
+        w2 = ws if status == "ACC" else [[] for _ in range(n_picked)]
+        return (f"{len(w2)} " + " ".join(lst(w, frac_token) for w in w2)).rstrip()
+
     def probe(where):
         """"the step counter in the restart file equals the number of completed moves" — evaluated wherever the code
         hands control to the outside (submit, wait for a result, result(), stop) and at every write of the file"""
@@ -84,6 +125,8 @@ def run_real_scheduler(ctx, n_ens, workers, steps, seed, rng, image=None, weight
                              {int(k): [float(x) for x in v] for k, v in image["frac"].items()})
         sim.op_dump()
         futures = []
+        sd["on"] = True
+        sim.emit("sd-begin " + ("-" if image is None else str(cstep0)), sd_real("running"), "sd")
 
         class Fut:
             def __init__(self, md):
@@ -114,6 +157,12 @@ def run_real_scheduler(ctx, n_ens, workers, steps, seed, rng, image=None, weight
         class Futures:
             def add(self, f):
                 futures.append(f)
+                pr = sd["last_prep"]
+                sd["last_prep"] = None
+                if not sd["main"]:
+                    sd_emit("start " + " ".join(pr[2:7]) if pr else "start ? ? ? ? ?")
+                else:
+                    sd_flush(pr)
 
             def as_completed(self):
                 # the scheduler blocks here until a result is in: a kill / a failing unit ends the life in this window
@@ -124,7 +173,9 @@ def run_real_scheduler(ctx, n_ens, workers, steps, seed, rng, image=None, weight
                     raise Crash()
                 if not futures:
                     return None
-                return futures.pop(rng.randrange(len(futures)))
+                k = rng.randrange(len(futures))
+                sd["last_k"] = k
+                return futures.pop(k)
 
         o_init, o_loop, o_prep, o_treat = st.initiate, st.loop, st.prep_md_items, st.treat_output
         o_write = st.write_toml
@@ -138,9 +189,13 @@ def run_real_scheduler(ctx, n_ens, workers, steps, seed, rng, image=None, weight
         def w_init():
             b = o_init()
             sim.emit("initiate", f"{str(bool(b)).lower()} cworker={st.cworker if st.cworker is not None else 0} toinit={st.toinitiate}", "initiate")
+            if not b:
+                sd_emit("initdone")
+                sd["main"] = True
             return b
 
         def w_loop():
+            sd_flush()
             b = o_loop()
             sim.emit("loop", f"{str(bool(b)).lower()} cstep={st.cstep}", "loop")
             return b
@@ -150,6 +205,7 @@ def run_real_scheduler(ctx, n_ens, workers, steps, seed, rng, image=None, weight
             st.prep_md_items = o_prep
             try:
                 out = sim.op_prep(md)
+                sd["last_prep"] = sim.lines[-1].split()      # prep <pin|-> t e coin partner saved
             finally:
                 st.prep_md_items = w_prep
             sim.op_dump()
@@ -158,6 +214,7 @@ def run_real_scheduler(ctx, n_ens, workers, steps, seed, rng, image=None, weight
         def w_treat(md):
             status, ws = md.pop("_verif")
             rec["consumed_ids"].append(md.get("_uid"))
+            wtok = ws_tokens(status, ws, len(md["picked"]))
             st.treat_output = o_treat
             in_treat[0] = True
             try:
@@ -166,6 +223,7 @@ def run_real_scheduler(ctx, n_ens, workers, steps, seed, rng, image=None, weight
                 st.treat_output = w_treat
                 in_treat[0] = False
             rec["treated"] += 1
+            sd["pend"] = {"k": sd["last_k"], "status": status, "ws": wtok}
             probe("treated")
             sim.op_dump()
             # "the step counter in the restart file equals the number of completed moves": after EVERY completed
@@ -192,8 +250,18 @@ def run_real_scheduler(ctx, n_ens, workers, steps, seed, rng, image=None, weight
         try:
             S.scheduler(sim.cfg)
             rec["finished"] = True
+            sd_flush()
+            sd_emit("finish", "stopped" if rec["stop_calls"] else "running")
         except Crash:
             rec["finished"] = False
+            pd = sd["pend"]
+            sd["pend"] = None
+            if rec["died_in"] == "unit":
+                sd_emit(f"unitfails {sd['last_k']}", "dead")
+            elif rec["died_in"] == "wait":
+                sd_emit("killedwaiting", "dead")
+            elif rec["died_in"] == "step" and pd is not None:
+                sd_emit(f"stepkilled {pd['k']} {pd['status']} {pd['ws']}", "dead")
         finally:
             S.setup_internal, S.setup_runner = s_int, s_run
         rec["unconsumed"] = len(futures)
@@ -234,6 +302,10 @@ def judge(ctx, rec, label, workers, steps, final=True):
                  f"at '{where}' the restart file says cstep {d} while {done} moves are completed "
                  f"(start cstep {c0} + {done - c0} results consumed in this life); first of {len(rec['disk_bad'])} such points: "
                  f"{rec['disk_bad']}", rep)
+    if rec.get("died_in") == "unit" and rec.get("finished"):
+        ctx.fail("C17:unit-exception-swallowed",
+                 f"a unit's exception came out of future.result() and scheduler() went on and returned normally: "
+                 f"{rec['treated']} moves completed, cstep {rec['cstep']} (a move was counted that never completed)", rep)
     if not rec.get("finished"):
         return
     want = max(0, steps - c0)
@@ -470,6 +542,9 @@ def run(ctx):
     # runner half, the runner's own code as a transition system (deterministic, in-process)
     from props import c17_sys
     c17_sys.run_sys(ctx)
+    # runner half, failure classes `_task_wrapper` does not handle (SystemExit, CancelledError, … StopIteration)
+    from props import c17_exc
+    c17_exc.run_exc(ctx)
     # runner half, the real runtime: trace validation
     try:
         from props import c17_runner
@@ -486,6 +561,9 @@ def run(ctx):
 
 def replay(ctx, obj):
     sig = obj.get("signature", "")
+    if sig.startswith("C17:runner:unhandled"):
+        from props import c17_exc
+        return c17_exc.replay_exc(ctx, obj)
     if sig.startswith("C17:runner:"):
         from props import c17_runner
         return c17_runner.replay_runner(ctx, obj)
